@@ -6,6 +6,7 @@ From JB Require Import Constants Bytes Utf8 Num Value Codec Decimal JsonText Ord
   Render Serde Path PathSem PathParse Dispatch Walk CompareWalk ComparableWalk.
 From JB Require Import RenderWalk.
 From JB Require Import SelWalk.
+From JB Require Import EditWalk.
 Extraction Language OCaml.
 Extraction "model.ml"
   to_vec write_to_vec enc parse_jsonb is_jsonb assoc_insert
@@ -23,6 +24,7 @@ Extraction "model.ml"
   object_pick_m strip_nulls_m build_array_m build_object_m
   select_m sel_exists_m sel_predicate_match_m get_by_path_m get_by_path_first_m get_by_path_array_m path_exists_m path_match_m
   select_w sel_exists_w sel_predicate_match_w get_by_path_w get_by_path_first_w get_by_path_array_w path_exists_w path_match_w
+  concat_w delete_by_name_w delete_by_index_w array_insert_w build_array_w build_object_w build_array_st build_object_st
   to_serde_json_m to_serde_json_object_m value_to_serde serde_to_value
   parse_lazy_value lazy_to_vec lazy_array_length lazy_to_value
   parse_json_path parse_key_paths show_json_path show_key_paths float_placeholder.
